@@ -263,14 +263,31 @@ def copyDict (s : Nat) : Mach → List (String × Nat) → Mach
     let (m2, l') := allocList m1 cs
     copyDict s (setDict m2 s (dictSet (dictOf m2 s) nm l')) rest
 
+/-- the distinct elements of a list (the last occurrence of each is kept) -/
+def dedupNat : List Nat → List Nat
+  | [] => []
+  | a :: as => if a ∈ dedupNat as then dedupNat as else a :: dedupNat as
+
+/-- position of the first occurrence (`length` if absent) -/
+def posOf (a : Nat) : List Nat → Nat
+  | [] => 0
+  | x :: xs => if x = a then 0 else posOf a xs + 1
+
 /-- `copy.deepcopy(simresults)` / a pickle round trip: a new SimulationResults object (the last
-    one) with deep copies of all results and the same parameters -/
+    one) with the same parameters, new list objects and one new Result object per *distinct* Result
+    object of the original — an object that occurs twice in the original occurs twice in the copy
+    (Python's deep copy keeps the sharing inside the copied graph) -/
 def copySim (m : Mach) (s : Nat) : Mach :=
   match m.sims[s]? with
   | none => m
   | some x =>
-    let m1 := { m with sims := m.sims ++ [{ dict := [], params := x.params }] }
-    copyDict m.sims.length m1 x.dict
+    let olds := dedupNat ((x.dict.flatMap (fun e => listAt m e.2)).filter (· < m.res.length))
+    let vals := olds.filterMap (fun a => m.res[a]?)
+    let f := fun a => m.res.length + posOf a olds
+    { res := m.res ++ vals,
+      lists := m.lists ++ x.dict.map (fun e => (listAt m e.2).map f),
+      sims := m.sims ++ [{ dict := (List.range x.dict.length).zipWith (fun i e => (e.1, m.lists.length + i)) x.dict,
+                           params := x.params }] }
 
 /-- `SimulationResults.merge_all_results` (current, repaired source): copy into an empty `self`;
     otherwise validate everything first, then merge -/
